@@ -65,9 +65,10 @@ CHECKS = {
              "geometry (S=a^2, d=a, volumes, environments); get_edge symmetric. Tie: translator IndexPy/GeomPy/EngineCpp + exhaustive "
              "correspondence over all small grids (every cell, pair, position) incl. the real engine's neighbour set observed through "
              "Euler steps and the kinetics functions' through derivatives + oracle; grid vs grid_to_graph trajectories / rate law on the real code.",
-        note="Lean kernel + {propext, Classical.choice, Quot.sound}; translator; correspondence harness. Partial: get_neighbors_iff / "
-             "kinetics_enum_iff / engine_nbr_iff (converse directions) and the grid_to_graph edge-multiset theorem are not proved for all "
-             "sizes (exhaustively checked for w,h,d<=3 quick / <=5 thorough); graph_rate_eq_grid_rate needs C01's engine model.",
+        note="Lean kernel + {propext, Classical.choice, Quot.sound}; translator; correspondence harness. get_neighbors_iff, "
+             "kinetics_enum_iff, engine_nbr_iff + engine_nbr_count (multiplicities on periodic axes of length 1 and 2) and "
+             "grid_to_graph_adjacency (soundness, completeness, multiplicity = faceCount) are proved for all sizes against the "
+             "independent Spec faceAdj; open: graph_rate_eq_grid_rate needs C01's engine model (checked on the real code).",
         technique="Lean 4 proof over translator-generated formulas + exhaustive differential correspondence",
         design="§6 C15"),
 }
